@@ -30,6 +30,9 @@ type uciParams struct {
 	Script  []string          `json:"script"`
 	Release int               `json:"release"`
 	Timer   int               `json:"timer"` // step from which timers may fire
+	Cap     int               `json:"cap,omitempty"`   // > 0: the driver's buffered channels are scaled down to this capacity
+	Stall   int               `json:"stall,omitempty"` // > 0: the GUI stops reading the output at this step ...
+	StallFor int              `json:"stall_for,omitempty"` // ... for so many steps, or until nothing else can run
 	Final   string            `json:"final"` // quit | eof | none
 	Horizon int               `json:"horizon"`
 	Oracle  string            `json:"oracle"` // c04 | c16
@@ -95,6 +98,7 @@ type uciRun struct {
 	guiDone       bool
 	loopThread    string
 	lastInfoDepth int
+	stalled       bool // the GUI is not reading the output right now
 }
 
 func (r *uciRun) log(kind, text string) {
@@ -111,7 +115,7 @@ func (r *uciRun) observe(step int) {
 			r.loopThread = n // whoever just took a line from the input channel is the command loop
 		}
 	}
-	for r.out != nil && !r.outClosed {
+	for r.out != nil && !r.outClosed && !r.stalled {
 		select {
 		case l, ok := <-r.out:
 			if !ok {
@@ -176,7 +180,7 @@ func buildUCI(params json.RawMessage) explore.Scenario {
 	if p.Horizon == 0 {
 		p.Horizon = 1500
 	}
-	return explore.Scenario{Horizon: p.Horizon, EnvSince: p.Since, TimerRelease: p.Timer, DelayThread: p.Slow, DelayUntil: p.Release + p.Until, Build: func() (func(), func(int), func(*vs.Sched) explore.Outcome) {
+	return explore.Scenario{Horizon: p.Horizon, EnvSince: p.Since, TimerRelease: p.Timer, DelayThread: p.Slow, DelayUntil: p.Release + p.Until, ChanCap: p.Cap, Build: func() (func(), func(int), func(*vs.Sched) explore.Outcome) {
 		r := &uciRun{p: p, lastInfoDepth: -1}
 		main := func() {
 			ctx := context.Background()
@@ -184,6 +188,18 @@ func buildUCI(params json.RawMessage) explore.Scenario {
 			r.in = make(chan string, 1)
 			r.driver, r.out = uci.NewDriver(ctx, e, r.in, opts...)
 			dead := func() bool { return r.outClosed }
+			if p.Stall > 0 {
+				// a GUI that stops reading for a while (and resumes at the latest when nothing else can run)
+				vs.GoNamed("gui-reader", func() {
+					vs.WaitStep("stall-begin", p.Stall)
+					r.stalled = true
+					r.log("gui", "stops reading")
+					vs.WaitStep("stall-end", p.Stall+p.StallFor)
+					r.stalled = false
+					r.log("gui", "reads again")
+					r.observe(vs.Step())
+				})
+			}
 			for _, l := range p.Script {
 				switch {
 				case l == "await":
